@@ -15,7 +15,7 @@ m = {
   "guard": "verif",
   "enable": "go/packages loads /repo with -tags=verif; the only guarded file is the comment-only /repo/verif_contracts.go (contracts). Replays inject tests with `go test -overlay`, never by editing the repository.",
   "baseline_off_cmd": "cd /repo && PATH=/opt/veriftools/go1.26.8/bin:$PATH GOFLAGS=-mod=mod GOPROXY=off GOSUMDB=off GOTOOLCHAIN=local go test -vet=off -count=1 -timeout 25m ./...",
-  "source_commits": json.load(open('/verif/tools/hook_commits.json')),
+  "source_commits": __import__('subprocess').run(['git','-C','/repo','log','--reverse','--format=%H','--','verif_contracts.go'],capture_output=True,text=True).stdout.split(),
   "add_only": True
  },
  "engines": [{"name": "gvc", "path": "/verif/engine", "serves_properties": sorted(checks), "kind_free_text": "SSA-to-SMT verification-condition generator with Gobra-style contracts; modular call rule, monitor invariants for locks, loop invariants, ghost traces; races three SMT solvers"}],
